@@ -195,7 +195,12 @@ func Offline(m *mon.Monitor, porcupineTimeout time.Duration) Stats {
 	}
 
 	// ---- oracle B: porcupine over the client history alone
-	st.Porcupine, st.PorcupineOps = porcupineCheck(m, writes, reads, porcupineTimeout, add)
+	// writes alone decide C03; if they are linearizable, writes + linearizable reads decide C05
+	st.Porcupine, st.PorcupineOps = porcupineCheck(m, writes, nil, porcupineTimeout, "C03", add)
+	if st.Porcupine == "ok" && len(reads) > 0 {
+		res, n := porcupineCheck(m, writes, reads, porcupineTimeout, "C05", add)
+		st.Porcupine, st.PorcupineOps = res, n
+	}
 	return st
 }
 
@@ -205,7 +210,7 @@ type pIn struct {
 	Maybe bool
 }
 
-func porcupineCheck(m *mon.Monitor, writes, reads []*mon.Op, timeout time.Duration, add func([]string, string, string, string, ...interface{})) (string, int) {
+func porcupineCheck(m *mon.Monitor, writes, reads []*mon.Op, timeout time.Duration, prop string, add func([]string, string, string, string, ...interface{})) (string, int) {
 	var ops []porcupine.Operation
 	end := int64(m.Now()) + 10
 	for _, op := range writes {
@@ -257,7 +262,7 @@ func porcupineCheck(m *mon.Monitor, writes, reads []*mon.Op, timeout time.Durati
 	case porcupine.Ok:
 		return "ok", len(ops)
 	case porcupine.Illegal:
-		add([]string{"C03", "C05"}, "porcupine-illegal", "", "the client history (%d operations) is not linearizable against the sequential counter model", len(ops))
+		add([]string{prop}, "porcupine-illegal", "", "the client history (%d operations) is not linearizable against the sequential counter model", len(ops))
 		return "illegal", len(ops)
 	}
 	return "unknown", len(ops)
